@@ -475,8 +475,9 @@ class RangeConstraint(Constraint):
                 ],
             )
 
-        # Check bounds (inclusive)
-        if numeric_value < self.min_value or numeric_value > self.max_value:
+        # Check bounds (inclusive). NaN compares false with everything, so it must be
+        # rejected explicitly - it is not a value inside any range.
+        if numeric_value != numeric_value or numeric_value < self.min_value or numeric_value > self.max_value:
             return ValidationResult(
                 valid=False,
                 errors=[
